@@ -446,6 +446,7 @@ Qed.
 
 Inductive cop :=
 | CEnsure (f t : Z)
+| CEnsureFail (f t : Z) (k : nat)      (* the fetcher fails on its (k+1)-th call *)
 | CExpand (f t : Z)
 | CInsert (cs : list chg)
 | CGrow (cs : list chg).
@@ -454,6 +455,7 @@ Definition cstep (st : table * store) (o : cop) : table * store :=
   let '(tb, s) := st in
   match o with
   | CEnsure f t => match ensure (tfetch tb) s f t with Some (s', _) => (tb, s') | None => (tb, s) end
+  | CEnsureFail f t k => match ensure_failing (tfetch tb) s f t k with Some (s', _, _) => (tb, s') | None => (tb, s) end
   | CExpand f t => (tb, expand s (f, t))
   | CInsert cs => (tb, replace_or_insert s cs)
   | CGrow cs => (tb ++ cs, s)
@@ -464,6 +466,7 @@ Definition obligation (st : table * store) (o : cop) : Prop :=
   let '(tb, s) := st in
   match o with
   | CEnsure _ _ => True
+  | CEnsureFail _ _ _ => True
   | CExpand f t => forall q c, in_rng f t q = true -> tget tb q = Some c -> iget (items s) q = Some c
   | CInsert cs => forall c, In c cs -> tget tb (c_seq c) = Some c
   | CGrow cs => NoDup (map c_seq (tb ++ cs)) /\
@@ -480,9 +483,12 @@ Definition GInv (st : table * store) : Prop := NoDup (map c_seq (fst st)) /\ Inv
 
 Lemma cstep_inv st o : GInv st -> obligation st o -> GInv (cstep st o).
 Proof.
-  destruct st as [tb s]. intros [Hnd Hi] Hob. destruct o as [f t|f t|cs|cs]; cbn [cstep].
+  destruct st as [tb s]. intros [Hnd Hi] Hob. destruct o as [f t|f t k|f t|cs|cs]; cbn [cstep].
   - destruct (ensure (tfetch tb) s f t) as [[s' asked]|] eqn:E; [|split; assumption].
     split; [exact Hnd|]. now destruct (ensure_transparent _ _ _ _ _ _ Hnd Hi E).
+  - unfold ensure_failing. destruct (t <? f); [split; assumption|].
+    destruct (k <? length (calc_missing s f t))%nat; (split; [exact Hnd|]); cbn [fst snd];
+      now apply ensure_fold_inv.
   - split; [exact Hnd|]. cbn [fst snd]. unfold expand. cbn [fst snd].
     destruct (t <? f); [exact Hi|]. destruct Hi as [I1 I2 I3]. constructor; cbn [items ranges]; auto.
     intros q c Hc Ht. rewrite covered_merge_adjacent, covered_app, orb_true_iff in Hc.
@@ -530,6 +536,18 @@ Proof.
   cbn [fst snd] in *. intros s' asked He.
   destruct (ensure_answer _ _ _ _ _ _ Hnd' Hi He) as [Hs Hm].
   split; [exact Hs|]. split; [exact Hm|]. now apply (ensure_no_refetch _ _ _ _ _ _ He).
+Qed.
+
+(* a fetcher failure: exactly the ranges fetched before it count as fetched afterwards - the
+   failing range and the ranges after it stay unmarked, so a later request asks for them again *)
+Theorem failed_fetch_marks_only_fetched tb s f t k s' asked :
+  ensure_failing (tfetch tb) s f t k = Some (s', asked, true) ->
+  asked = firstn (S k) (calc_missing s f t) /\
+  forall q, covered (ranges s') q = covered (ranges s) q || covered (firstn k (calc_missing s f t)) q.
+Proof.
+  unfold ensure_failing. destruct (t <? f); [discriminate|].
+  destruct (k <? length (calc_missing s f t))%nat; intros H; inversion H; subst.
+  split; [reflexivity|]. intros q. apply ensure_fold_covered.
 Qed.
 
 (* RemoveChangesByActor on the (authoritative) presence store *)
